@@ -65,6 +65,13 @@ func runC13(r *core.Run) {
 			}
 		}, checkPack)
 
+	core.Clause(r, "dst-contents-pack", core.Opts{Rule: dstRule},
+		genDstCases([]string{"", "A", "t", "ACG", "ACGT", "acgtTGCAg", "ACGTACGTACGTACGTACGTACGTACGTACGTACGTA", "ACNG", "\x00", "AC\x00", "ACGT\xff", "N"}),
+		checkDstContract("DNATo2Bit", sequtil.DNATo2Bit, ref.Pack2Bit))
+	core.Clause(r, "dst-contents-unpack", core.Opts{Rule: dstRule},
+		genDstCases([]string{"", "\x00", "\x1b", "\xff\x00", "\xe4\x1b\x00\xff\x80\x01\x7f"}),
+		checkDstContract("DNAFrom2Bit", sequtil.DNAFrom2Bit, func(p []byte) ([]byte, bool) { return ref.Unpack2Bit(p), true }))
+
 	core.Clause(r, "packed-roundtrip", core.Opts{Rule: "the empty string, all 256 packed bytes and all 65536 byte pairs: DNATo2Bit(DNAFrom2Bit(p)) == p and DNAFrom2Bit(p) == reference expansion; non-trivial = all non-empty"},
 		func(emit func(c13Packed) bool) {
 			emit(c13Packed{[]int{}})
@@ -145,6 +152,18 @@ func runC13(r *core.Run) {
 			return core.Outcome{Class: "ok", Nontrivial: true, Evals: 4}
 		})
 
+	core.Clause(r, "panic-boundary-pairs", core.Opts{Rule: "all 65536 two-byte strings, alone and between A and C (a pair of bad bytes must not hide each other), and the UTF-8 encoding of EVERY code point U+0080..U+10FFFF (surrogates excluded) between AC and GT (bytes are judged, not runes): DNATo2Bit panics iff some BYTE is outside aAcCgGtT; non-trivial = all"},
+		func(emit func(c13Pack) bool) {
+			for a := 0; a < 256; a++ {
+				for b := 0; b < 256; b++ {
+					if !emit(c13Pack{core.S([]byte{byte(a), byte(b)}), 0}) || !emit(c13Pack{core.S([]byte{'A', byte(a), byte(b), 'C'}), 0}) {
+						return
+					}
+				}
+			}
+			enum.Runes(0x80, 0x10FFFF, func(cp rune) bool { return emit(c13Pack{core.S("AC" + string(cp) + "GT"), 0}) })
+		}, checkPackPanics)
+
 	core.Clause(r, "ntoi-iton-panic", core.Opts{Rule: "Ntoi on all 256 bytes (pos=-2), Iton on -3..6 (pos=-3, byte=value+3), and every byte at each position mod 4 of ACGTA: panics iff outside aAcCgGtT"},
 		func(emit func(c13Byte) bool) {
 			for b := 0; b < 256; b++ {
@@ -207,6 +226,23 @@ func runC13(r *core.Run) {
 			}
 			return core.OK("panics", true)
 		})
+}
+
+func checkPackPanics(c c13Pack) core.Outcome {
+	src := c.Seq.B()
+	want, ok := ref.Pack2Bit(src)
+	var got []byte
+	p := catch(func() { got = sequtil.DNATo2Bit(nil, src) })
+	if ok {
+		if p != "" || !bytes.Equal(got, want) {
+			return core.Failf("DNATo2Bit(%q) = %x (panic %q), want %x", src, got, p, want)
+		}
+		return core.OK("accepted", true)
+	}
+	if p == "" {
+		return core.Failf("DNATo2Bit(%q) did not panic although it holds bytes outside aAcCgGtT (returned %x)", src, got)
+	}
+	return core.OK("panics", true)
 }
 
 func checkPack(c c13Pack) core.Outcome {
